@@ -50,7 +50,7 @@ Example C04_premises_met :
   (forall k, In k (t_sorted w_table) -> match_key lang_match (ctx_of w_client) w_table w_query (get_item w_table k) = Ok (w_ev k)).
 Proof.
   destruct w_reach as [R1 R2].
-  destruct (KInv_reachable lang_match lang_update V2 w_ops (bs "c") (bs "tbl") w_client w_table w_env R1 R2) as [HT HK].
+  destruct (KInv_reachable lang_match lang_update V2 w_ops (bs "c") (bs "tbl") w_client w_table w_env R1 R2) as [HT [HK _]].
   split; [reflexivity|]. split; [reflexivity|]. split; [vm_compute; reflexivity|]. split; [exact HT|]. split; [exact HK|].
   intros k Hk. rewrite w_keys in Hk.
   destruct Hk as [<-|[<-|[<-|[]]]]; vm_compute; reflexivity.
@@ -117,7 +117,7 @@ Proof.
   { unfold wi_ops. cbn [run_env step_env snd fst]. split; [exact I|]. split.
     - intros t0 H0. vm_compute in H0. inversion H0. reflexivity.
     - repeat split. }
-  destruct (KInv_reachable lang_match lang_update V2 wi_ops _ _ _ _ E1 R1 R2) as [HT HK].
+  destruct (KInv_reachable lang_match lang_update V2 wi_ops _ _ _ _ E1 R1 R2) as [HT [HK _]].
   destruct (XInv_reachable lang_match lang_update V2 wi_ops _ _ _ _ E2 R1 R2) as [_ HX].
   split; [reflexivity|]. split; [exact R3|]. split; [reflexivity|]. split; [vm_compute; reflexivity|].
   split; [exact HK|]. split; [apply (HX (bs "gix")); apply lookup_In; exact R3|].
